@@ -174,6 +174,13 @@ func c02LongGrowth(c *explore.Ctx) *explore.Violation {
 }
 
 func runC02(c *explore.Ctx) {
+	defer func() {
+		// sessions that saw a failed call and then closed cleanly (see c04FaultCase): the restart must show the acknowledged
+		// contents, with the failed operation applied or not, and a consistent index
+		if !c.Expired() && c.NViolations() == 0 {
+			c04FaultLayer(c)
+		}
+	}()
 	if c.Mine() {
 		c.Add("executions", 1)
 		if v := c02LongGrowth(c); v != nil {
@@ -301,7 +308,7 @@ func init() {
 		Prop:  "C02",
 		Level: "model_checking",
 		Rule: "every word of length <= d over the C01 alphabet + Reopen (Close must return nil, then Open) from the engineered bases, followed by a forced Reopen, one Put, Reopen and a write-free session; " +
-			"after every step: full contents/Count/structural walk vs map model, independent decoder replay (sequence order) == model; every reopening Open is checked on the FS op log to have run no recovery; distinct = distinct FS images; plus one long history (6000 keys, thorough 20000, a clean restart every 1500/2500 inserts with interleaved deletes and overwrites: index files far beyond 64 KiB, splits right after a restart) with the same oracles after every restart",
+			"after every step: full contents/Count/structural walk vs map model, independent decoder replay (sequence order) == model; every reopening Open is checked on the FS op log to have run no recovery; distinct = distinct FS images; plus one long history (6000 keys, thorough 20000, a clean restart every 1500/2500 inserts with interleaved deletes and overwrites: index files far beyond 64 KiB, splits right after a restart) with the same oracles after every restart; plus sessions in which one operation of {Put(a),Put(b),Delete(a),Compact,Sync} was hit by a transient I/O error at each of its mutating file-system calls and that then closed cleanly: the restart must show the acknowledged contents with the failed operation applied or not, Count and index consistent",
 		Assumptions:   []string{"sessions run on simfs; OS/OSMMap session alternation is covered by C17's differential", "depth bound as reported"},
 		QuickBudget:   100 * time.Second,
 		ThorBudget:    25 * time.Minute,
